@@ -47,7 +47,9 @@ REQUIRED = ['ha_house_monotone', 'ha_house_monotone_general', 'ha_vote_monotone'
             'schulze_monotone', 'schulze_monotone_lift', 'schulze_monotone_bullet',
             'minimax_monotone_added', 'minimax_monotone_new_full', 'bucklin_new_full_witness', 'bucklin_default_new_full_witness',
             'copeland_new_full_witness', 'minimax_wv_new_full_witness', 'schulze_new_full_witness']
-UNPROVED = ["score_sum_monotone for unscored_value='min' (modelled through C12's {score: count} table model, checked by "
+UNPROVED = ['approval_split_monotone (ApprovalToSimpleVotes(split=True), satisfaction approval: modelled as evalApprovalSplit, checked by '
+            'correspondence and oracle; the approval theorems cover split=False)',
+            "score_sum_monotone for unscored_value='min' (modelled through C12's {score: count} table model, checked by "
             'correspondence and oracle; the theorems cover unscored_value None and every numeric value)',
             'bucklin_default_monotone on profiles WITH shared ranks (the even split over the compatible strict orders is '
             'modelled and checked by the correspondence and the oracle; the theorems cover split_equal_rankings=False and, for '
@@ -1550,12 +1552,17 @@ REQUIRED_COUNTERS = (['ha:house', 'ha:votes', 'ha:caps', 'ha:prev_gains', 'ha:ti
                       'geometric:param_3', 'geometric:param_10', 'fixed_top:param_5', 'sequence:param_10x4x4x1',
                       'sequence:param_5x3x1', 'copeland:param_0', 'copeland:param_1']
                      + [f'{r}:big_near_tie' for r in ['plurality', 'approval'] + RANKED_RULES]
-                     + [f'{r}:no_cw_4plus' for r in ['copeland', 'minimax_wv', 'minimax_margins', 'schulze']]
+                     + [f'{r}:no_cw_4plus' for r in ['copeland', 'minimax_wv', 'minimax_margins', 'minimax_pwo', 'schulze']]
                      + [f'{r}:new_full' for r in ['bucklin', 'bucklin_whole', 'copeland', 'minimax_wv', 'minimax_margins', 'schulze']]
                      + [f'{r}:{k}' for r in RANKED_RULES for k in ('lift', 'new', 'premise')])
 
-RULE = ('highest averages: 1-5 parties, five divisors (+ modified first coefficient), n 1..9, previous gains, caps, vote '
-        'increments 1 / 2 / 5 / 1/2 / 100, votes up to 10^20; winner rules: 2-4 candidates, 1-5 ballot types with weights '
+RULE = ('highest averages: 1-5 parties, five divisors (+ modified first coefficient), n 1..9, previous gains (also for parties without '
+        'votes), caps, vote increments 1 / 2 / 5 / 1/2 / 100, Fraction votes, votes K*m+e with K in 10^18, 10^20, 10^30, 2^53 (near ties of '
+        'the quotients at magnitude); candidate objects str / int (0 falsy) / empty string / Person; weights int, Fraction, Decimal '
+        '(below 10^20); one evaluator object for both elections (either order) in 2 of 5 cases; every rule on profiles scaled by '
+        '10^9..10^30 in which the winner leads by one vote; positional scorers with every parameter (Borda base 0/1/2, Geometric base '
+        '2/3/10, FixedTop 1/2/3/5, SequenceBased incl. sequences shorter than the ballots), 6-8 candidates in 8% of the profiles; '
+        'approval with split and with an empty ballot; score-sum with Fraction / negative / 7-place Decimal scores and negative unscored value; winner rules: 2-4 candidates, 1-5 ballot types with weights '
         '1-4, 3/2, 5/2, 1000001 (truncated ballots, shared ranks), base profiles with a sole winner according to a reference computation, '
         'every single-unit lift of the winner on every ballot (sampled to 8 per profile in the quick tier) and the '
         'admissible new ballots (for Bucklin/Copeland/minimax/Schulze the bullet ballot and, kind new_full, w followed by a strict '
